@@ -367,6 +367,19 @@ def run_scenario(task):
                         rn = ctx.check(z3.Not(c), block, *extra, defs=True, timeout_ms=20000, npc=npc, nas=nas)
                         model = ctx.last.model() if rn == z3.sat else None
                     if not handled:
+                        # solver-guided concretisation: non-linear candidates (products of contexts, variances, ...) that
+                        # z3 cannot complete are retried with the context-like inputs fixed to pairwise distinct small
+                        # rationals, which leaves a linear problem in the remaining inputs (rewards, radius, hyper-parameters)
+                        cvars = [v for n, v in sorted(ctx.vars.items()) if v.sort() == core.R and n[:1] in ('x', 'q')]
+                        rr = random.Random('%s/%s' % (sname, o.label))
+                        for trial in range(6 if cvars else 0):
+                            vals = rr.sample(range(-9, 10), min(len(cvars), 19))
+                            eqs = [v == z3.Q(vals[i % len(vals)], 2 if trial % 2 else 1) for i, v in enumerate(cvars)]
+                            rn = ctx.check(z3.Not(c), *eqs, *extra, defs=True, timeout_ms=8000, npc=npc, nas=nas)
+                            if rn == z3.sat and attempt(ctx.last.model()):
+                                handled = True
+                                break
+                    if not handled:
                         res['inconclusive'].append(dict(
                             label=o.label, verdict=str(rb),
                             reason='candidate counterexample did not reproduce on the real library'
@@ -547,7 +560,7 @@ def _margins(pc, eps=None):
 
 
 def _save_replay(pid, sname, label, rec, k):
-    d = os.path.join(EVID, 'replays')
+    d = os.environ.get('SX_REPLAY_DIR') or os.path.join(EVID, 'replays')
     os.makedirs(d, exist_ok=True)
     safe = ''.join(ch if ch.isalnum() or ch in '._-' else '_' for ch in '%s.%s.%s' % (pid, sname, label))[:150]
     p = os.path.join(d, '%s.%d.json' % (safe, k))
